@@ -397,10 +397,25 @@ class SimClient:
     def __init__(self, ex):
         self._ex = ex
 
+    # keyword arguments that distributed.Client.submit consumes itself (never passed to the function)
+    _SUBMIT_OPTIONS = ("key", "workers", "resources", "retries", "priority", "fifo_timeout", "allow_other_workers", "actor", "actors", "pure")
+
     def submit(self, fn, *args, **kwargs):
         ex = self._ex
         ex.n_submits += 1
-        tid = f"s{ex.n_submits}:{getattr(fn, '__name__', 'fn')}"
+        for opt in self._SUBMIT_OPTIONS:
+            kwargs.pop(opt, None)
+        tid = f"s{ex.n_submits}:{getattr(fn, '__name__', None) or getattr(getattr(fn, 'func', None), '__name__', 'fn')}"
+        # futures passed as arguments are dependencies: the task receives their results
+        deps = [a for a in list(args) + list(kwargs.values()) if isinstance(a, SimFuture)]
+
+        def resolve(x):
+            return x.result() if isinstance(x, SimFuture) else x
+
+        if deps:
+            ex.sched.run_until(lambda: all(d.done() for d in deps))
+            args = tuple(resolve(a) for a in args)
+            kwargs = {k: resolve(v) for k, v in kwargs.items()}
         if ex.cfg.serialize:
             blob = cloudpickle.dumps((fn, args, kwargs))
             ex.fired["serialize"] += 1
